@@ -26,7 +26,7 @@ ASSUMPTIONS = [
     "angular momentum is asserted to rounding for whfast/saba/eos/leapfrog/janus (compositions of maps that conserve L exactly); "
     "for IAS15, BS, MERCURIUS and TRACE to the accuracy class stated in the module (L_CLASS)",
     "energy accuracy classes (E_CLASS) are a-priori generous bounds, not sharp: IAS15 1e-12*sqrt(steps) of sum|terms|, "
-    "BS 3e3*eps_rel*steps, Wisdom-Holman family 50*(planet/star mass)*(dt/P_min)^2 relative to |E_bind|, T+V splittings 20*(2 pi dt/P_min)^2",
+    "BS 3e3*eps_rel*steps, Wisdom-Holman family 100*(planet/star mass)*(dt/P_min)^2 (2000* for WHFast barycentric coordinates) relative to the binding-energy scale, T+V splittings 20*(2 pi dt/P_min)^2",
     "reb_simulation_energy is compared without softening (it does not include it) and with all particles active",
     "JANUS conserves on its integer grid: tolerances get an additive term steps*stages*sum|m|*scale",
 ]
@@ -133,7 +133,18 @@ class Tracker:
         # m_i m_j r_i x v_j / m0) is not carried by the drift: L is only conserved to the truncation error
         # (measured ~ 3 eps_mass (dt/P)^2, second order like the energy error), not to rounding.
         self.barycentric = sets.get("ri_whfast.coordinates") == "barycentric"
+        self.label = self.fam if self.fam != "whfast" else "whfast/" + sets.get("ri_whfast.coordinates", "jacobi")
         self.maxE = 0.0
+        # elementary drift/kick operations per step: rounding-level tolerances are linear in steps*ops
+        eos = {"lf": 1, "lf4": 3, "lf6": 9, "lf8": 17, "lf4_2": 5, "lf8_6_4": 9, "plf7_6_4": 9, "pmlf4": 4, "pmlf6": 6}
+        if self.fam == "eos":
+            self.ops = sets.get("ri_eos.n", 2) * eos.get(sets.get("ri_eos.phi0", "lf"), 9) * eos.get(sets.get("ri_eos.phi1", "lf"), 9)
+        elif self.fam == "janus":
+            self.ops = 4 * self.order + 4
+        elif self.fam == "bs":
+            self.ops = 30       # modified-midpoint sub-steps of the extrapolation columns
+        else:
+            self.ops = 1
 
     def check(self, where, momentum_only=False):
         inv, sim, ctx, i0 = self.inv, self.sim, self.ctx, self.i0
@@ -142,10 +153,11 @@ class Tracker:
         n = max(1, sim.steps_done - self.s0)
         el = inv.LD(sim.t) - inv.LD(self.t0)
         fam = self.fam
-        stages = 4 * self.order + 4
+        stages = self.ops
+        n_ops = n * stages
         msum = float(abs(a[:, inv.M]).sum())
         # --- linear momentum
-        tolP = K_P * EPS * n * float(max(i0["Psc"], i1["Psc"])) + n * stages * msum * self.grid_v
+        tolP = K_P * EPS * n_ops * float(max(i0["Psc"], i1["Psc"])) + n * stages * msum * self.grid_v
         errP = vmax(i1["P"] - i0["P"])
         ctx.stat_max("P_over_tol[%s]" % fam, errP / tolP if tolP > 0 else 0.0)
         if errP > tolP:
@@ -154,7 +166,7 @@ class Tracker:
         # --- uniform motion of the centre of mass:  sum m x (t) = sum m x (0) + P0 (t - t0)
         # (P0 t is exact only up to the rounding of the initial velocities: K eps |t| sum|mv| covers it)
         scX = float(max(i0["MXsc"], i1["MXsc"])) + abs(float(el)) * float(i0["Psc"])
-        tolX = K_X * EPS * n * scX + n * stages * msum * (self.grid_x + abs(float(el)) * self.grid_v)
+        tolX = K_X * EPS * n_ops * scX + n * stages * msum * (self.grid_x + abs(float(el)) * self.grid_v)
         errX = vmax(i1["MX"] - (i0["MX"] + i0["P"] * el))
         ctx.stat_max("X_over_tol[%s]" % fam, errX / tolX if tolX > 0 else 0.0)
         if errX > tolX:
@@ -168,13 +180,13 @@ class Tracker:
         Lsc = float(max(i0["Lsc"], i1["Lsc"]))
         errL = vmax(i1["L"] - i0["L"])
         if fam in L_ROUNDING and not self.barycentric:
-            tolL = K_L * EPS * n * Lsc + n * stages * msum * (self.grid_x + self.grid_v) * \
+            tolL = K_L * EPS * n_ops * Lsc + n * stages * msum * (self.grid_x + self.grid_v) * \
                 float(max(abs(a[:, 0:6]).max(), 1.0))
             cls = "rounding"
         else:
             tolL = self.L_class(n) * Lsc
             cls = "accuracy class"
-        ctx.stat_max("L_over_tol[%s]" % fam, errL / tolL if tolL > 0 else 0.0)
+        ctx.stat_max("L_over_tol[%s]" % self.label, errL / tolL if tolL > 0 else 0.0)
         if errL > tolL:
             raise Violation("angular momentum not conserved to %s (%s): |dL| = %.3e > %.3e (n=%d) %s"
                             % (cls, fam, errL, tolL, n, where), L0=[float(c) for c in i0["L"]], L1=[float(c) for c in i1["L"]])
@@ -182,7 +194,7 @@ class Tracker:
         errE = abs(float(i1["E"] - i0["E"]))
         tolE = self.E_class(n, i0)
         self.maxE = max(self.maxE, errE)
-        ctx.stat_max("E_over_tol[%s]" % fam, errE / tolE if tolE > 0 else 0.0)
+        ctx.stat_max("E_over_tol[%s]" % self.label, errE / tolE if tolE > 0 else 0.0)
         if errE > tolE:
             raise Violation("energy error outside the accuracy class of %s: |dE| = %.3e > %.3e (n=%d, dt/P_min=%.3g, "
                             "planet/star mass %.3g) %s" % (fam, errE, tolE, n, self.dt / self.P_min, self.eps_mass, where),
@@ -198,7 +210,7 @@ class Tracker:
             return 1e3 * sets.get("ri_bs.eps_rel", 1e-8) * n
         if self.barycentric:
             x = self.dt / self.P_min
-            return 50.0 * self.eps_mass * x * x + K_L * EPS * n
+            return 500.0 * self.eps_mass * x * x + K_L * EPS * n
         return 1e-9           # hybrids
 
     def E_class(self, n, i0):
@@ -216,7 +228,9 @@ class Tracker:
         if fam == "bs":
             return 3e3 * sets.get("ri_bs.eps_rel", 1e-8) * n * Esc
         if fam in WH_FAMILY:
-            return 50.0 * self.eps_mass * x * x * Ebind + floor
+            # measured maxima of |dE| / (eps_mass x^2 sum|terms|) over 4500 random systems: jacobi 0.16, democratic
+            # heliocentric 0.56, whds 0.35, saba 0.43, trace 2.0, mercurius 3.7, barycentric 63
+            return (2000.0 if self.barycentric else 100.0) * self.eps_mass * x * x * Ebind + floor
         return 20.0 * (2 * math.pi * x) ** 2 * Ebind + floor
 
 
@@ -236,13 +250,30 @@ boost = st.one_of(st.none(), st.fixed_dictionaries({
 
 NON_WH = ["ias15", "bs", "leapfrog", "eos", "janus"]
 
+
+@st.composite
+def whfast_by_coordinates(draw):
+    """WHFast configuration with the coordinate system drawn first (the shared lattice is 80% Jacobi because only
+    Jacobi admits the other kernels/correctors; the transformations of the other three deserve equal weight here)."""
+    c = draw(st.sampled_from(S.WH_COORDS))
+    _, k, co, c2 = draw(st.sampled_from([x for x in S.whfast_lattice() if x[0] == c]))
+    sm = draw(st.sampled_from([0, 1]))
+    sets = [["ri_whfast.coordinates", c], ["ri_whfast.kernel", k], ["ri_whfast.corrector", co],
+            ["ri_whfast.corrector2", c2], ["ri_whfast.safe_mode", sm]]
+    if sm == 0 and draw(st.booleans()):
+        sets.append(["ri_whfast.keep_unsynchronized", 1])
+    return {"integrator": "whfast", "set": sets, "family": "whfast", "fixed_step": True}
+
+
+ANY_CFG = st.one_of(S.integrator_config(), S.integrator_config(), whfast_by_coordinates())
+
 conserve_case = st.one_of(
     st.fixed_dictionaries({
-        "system": S.hierarchical_system(nmin=2, nmax=5), "cfg": S.integrator_config(),
+        "system": S.hierarchical_system(nmin=2, nmax=5), "cfg": ANY_CFG,
         "dt_frac": S.logfloats(2e-3, 0.05), "back": st.booleans(), "boost": boost,
         "ops": st.lists(op, min_size=3, max_size=8)}),
     st.fixed_dictionaries({
-        "system": S.hierarchical_system(nmin=3, nmax=5), "cfg": S.integrator_config(),
+        "system": S.hierarchical_system(nmin=3, nmax=5), "cfg": ANY_CFG,
         "dt_frac": S.logfloats(2e-3, 0.05), "back": st.booleans(), "boost": boost,
         "ops": st.lists(op, min_size=3, max_size=8)}),
     st.fixed_dictionaries({
@@ -374,8 +405,46 @@ def merge_cfg_ok(cfg):
     return not deferred(cfg)
 
 
+@st.composite
+def close_pair_system(draw):
+    """Star + two planets 1-3.5 mutual Hill radii apart in semi-major axis, started shortly before conjunction, with
+    physical radii of a fraction of their Hill radii (+ optionally a distant third planet): a real close encounter,
+    and often a physical collision, happens within the first orbits.  This is what makes the hybrid integrators
+    switch, reject steps and search for collisions inside their encounter sub-steps."""
+    Gv = draw(st.sampled_from(S.G_VALUES))
+    m0 = draw(st.sampled_from([1.0, 0.5, 2.0]))
+    a = draw(S.floats(0.7, 1.5))
+    mA = draw(S.logfloats(1e-7, 1e-4)) * m0
+    mB = draw(S.logfloats(1e-7, 1e-4)) * m0
+    rH = a * ((mA + mB) / (3 * m0)) ** (1.0 / 3.0)
+    k = draw(S.floats(1.0, 3.5))
+    aB = a + k * rH
+    c = draw(S.floats(1.0, 6.0))
+    phase = draw(S.angles)
+    eA, eB = draw(S.floats(0.0, 0.02)), draw(S.floats(0.0, 0.02))
+    iB = draw(st.one_of(st.just(0.0), S.floats(0.0, 0.004)))
+    f = draw(S.logfloats(0.1, 2.0))
+    parts = [{"m": m0, "x": 0.0, "y": 0.0, "z": 0.0, "vx": 0.0, "vy": 0.0, "vz": 0.0, "r": draw(st.sampled_from([0.0, 0.005 * a]))}]
+    sA = S.el2cart(Gv * (m0 + mA), a, eA, 0.0, 0.0, 0.0, phase)
+    sB = S.el2cart(Gv * (m0 + mB), aB, eB, iB, 0.0, 0.0, phase + c * k * rH / a)
+    for m, sv in ((mA, sA), (mB, sB)):
+        parts.append({"m": m, "x": sv[0], "y": sv[1], "z": sv[2], "vx": sv[3], "vy": sv[4], "vz": sv[5],
+                      "r": f * a * (m / (3 * m0)) ** (1.0 / 3.0)})
+    if draw(st.booleans()):
+        mC = draw(S.logfloats(1e-7, 1e-4)) * m0
+        sC = S.el2cart(Gv * (m0 + mC), 4.0 * a, 0.05, 0.02, 1.0, 2.0, draw(S.angles))
+        parts.append({"m": mC, "x": sC[0], "y": sC[1], "z": sC[2], "vx": sC[3], "vy": sC[4], "vz": sC[5], "r": 0.0})
+    M = sum(p["m"] for p in parts)
+    for key in ("x", "y", "z", "vx", "vy", "vz"):
+        cc = sum(p["m"] * p[key] for p in parts) / M
+        for p in parts:
+            p[key] -= cc
+    P = 2 * math.pi * math.sqrt(a ** 3 / (Gv * m0))
+    return {"G": Gv, "particles": parts, "P_min": P, "P_max": P, "close": True}
+
+
 merge_case = st.fixed_dictionaries({
-    "system": S.hierarchical_system(nmin=3, nmax=5),
+    "system": st.one_of(S.hierarchical_system(nmin=3, nmax=5), close_pair_system()),
     "cfg": S.integrator_config(MERGE_FAMS).filter(merge_cfg_ok),
     "dt_frac": S.logfloats(0.015, 0.05),
     "boost": boost,
@@ -440,7 +509,9 @@ def run_merge(case, ctx):
     pairs.sort(key=lambda p: dmin[p] / d0[p])      # pairs that approach most (relative to their start) first
     sim = build()
     rad = [0.0] * n0
-    for pr in case["pairs"]:
+    if sysd.get("close"):
+        rad = [p.get("r", 0.0) for p in sysd["particles"]]    # physical radii come with the system
+    for pr in ([] if sysd.get("close") else case["pairs"]):
         i, j = pairs[pr["which"] % len(pairs)]
         # sum of radii between the closest approach seen in the pilot (q=0) and the initial distance (q=1):
         # no overlap at the start; q>1 never touches
@@ -494,6 +565,9 @@ def run_merge(case, ctx):
     tr.check("at the end, %d merger(s) (%s)" % (mergers, fam), momentum_only=True)
     ctx.cls("mergers=%d" % mergers if mergers < 3 else "mergers>=3")
     ctx.cls(fam)
+    if sysd.get("close"):
+        ctx.cls("close_pair")
+        ctx.cls("close_pair/%s/mergers=%d" % (fam, min(mergers, 2)))
     if mergers >= 1 and n0 >= 3 and total >= 100:
         ctx.nontrivial()
 
@@ -579,7 +653,7 @@ def run_diag(case, ctx):
 
 def subs(tier):
     out = [
-        Sub("conserve", run_conserve, strategy=conserve_case, quick=1200, thorough=4000, shards_quick=8, shards_thorough=16),
+        Sub("conserve", run_conserve, strategy=conserve_case, quick=2000, thorough=4000, shards_quick=8, shards_thorough=16),
         Sub("merge", run_merge, strategy=merge_case, quick=600, thorough=6000, shards_quick=4, shards_thorough=16),
         Sub("diagnostics", run_diag, strategy=diag_case, quick=3000, thorough=60000, shards_quick=2, shards_thorough=8),
     ]
